@@ -74,6 +74,40 @@ def growth_histories(rng, n, length):
     return hs
 
 
+def random_table_histories(rng, n, length):
+    """Longer histories over three block slots: additions from a small domain, copies in both directions (construction of
+    a dead slot, assignment onto a live one that was used before), clears; the value added right after an assignment is
+    often the one the destination added last before it."""
+    hs = []
+    for _ in range(n):
+        alive = {1}
+        last = {1: None, 2: None, 3: None}
+        dom = rng.choice([3, 4, 6])
+        ops = []
+        for _ in range(length):
+            x = rng.random()
+            t = rng.choice(sorted(alive))
+            if x < 0.55:
+                v = last[t] if (last[t] is not None and rng.random() < 0.35) else rng.randrange(dom)
+                ops.append({"op": "add", "t": t, "v": v})
+                last[t] = v
+            elif x < 0.85:
+                d = rng.choice([u for u in (1, 2, 3) if u != t])
+                ops.append({"op": "copy", "src": t, "dst": d})
+                alive.add(d)
+                # (the destination's own "last" is deliberately kept: what it added last before being overwritten)
+                if last[d] is None:
+                    last[d] = last[t]
+            elif x < 0.93:
+                ops.append({"op": "clear", "t": t})
+            elif len(alive) > 1:
+                ops.append({"op": "destroy", "t": t})
+                alive.discard(t)
+                last[t] = None
+        hs.append({"ops": ops})
+    return hs
+
+
 def run_tables(chk, histories, relevant, flavor="asan", label="tbl"):
     work = vlib.scratch(label)
     hist = work / "histories.ndjson"
